@@ -404,6 +404,7 @@ func runC09(c *Ctx) {
 	c09Rebuild(c)
 	runSortStaleRule(c, "C09.sortstale", 5)
 	runDrainStopRule(c, "C09.drainstop", 4)
+	runDirSwapRule(c, "C09.dirswap", 1)
 	runAnyScanRule(c, "C09.anyscan", func(fn *ssa.Function) bool { return fnPkgPath(fn) == modPath }, 2)
 	c10WrapOrder(c)
 	p := c.P
